@@ -118,7 +118,11 @@ func runProps(ids []string, tier string) int {
 		}
 	}
 	ctrlOv, ctrlFiles := controlOverlay()
-	c, err := Load(ctrlOv, nil, ctrlFiles)
+	var loadEnv []string
+	if e := os.Getenv("MB_LOAD_ENV"); e != "" { // debugging aid: analyse another build configuration directly
+		loadEnv = strings.Split(e, ",")
+	}
+	c, err := Load(ctrlOv, loadEnv, ctrlFiles)
 	controlsLoaded := true
 	if err != nil {
 		// a control may stop type-checking on a changed tree: fall back, say so
